@@ -50,11 +50,16 @@ SEEDS = {
            "an input track without any message (silent / meta-only track): the first bar of that track is built on, and mutates, the caller's object"),
  "C08-b": ("C08", "split: a note-on sitting exactly on a boundary (remaining capacity 0) is added straight to `next_sequence` instead of the deferred queue, so it is never registered as open in the next round",
            "one split call with at least two capacities and a note starting exactly on boundary k that still sounds past boundary k+1: it is neither closed nor re-struck there"),
+ "C01-b": ("C01", "tokenise: the separate VELOCITY token is emitted when the velocity differs from the previous note *value* (`msg_velocity != prv_value`) instead of the previous velocity",
+           "flag_fuse_velocity=False with running values on, and a note whose velocity bin differs from its predecessor's while equal to the predecessor's duration, or unchanged velocity (extra token) -- only the first loses information"),
+ "C04-b": ("C04", "Sequence.overwrite_absolute_messages / overwrite_relative_messages build the view with `AbsoluteSequence(messages=messages)` / `RelativeSequence(messages=messages)`; the time-sorted insertion of add_message is gone",
+           "overwrite_absolute_messages called with a valid list that is not in chronological order (e.g. grouped note by note), then the relative view read"),
  "C17-a": ("C17", "equals: the tick comparison moved into the NOTE_ON branch; time and key signatures are compared by value only",
            "two sequences identical except for the tick of one signature, with no compared event of the channel between the old and the new tick"),
 }
 
 INITIALLY_MISSED = {
+ "C04-b": "missed by the first version of C04 (the ABS-SORTED rule only looked at AbsoluteSequence's own methods); the rule now also covers every construction of an AbsoluteSequence from a message list and raw writes to a locally built one's list",
  "C08-b": "missed by the first versions of the C08 rules (Q1 only lost one of its add sites, which is not a violation); the PLACE rule (each message placed exactly once, in the current piece or on the deferred queue, nowhere else) was added",
  "C14-a": "caught from the start by C04 (TS3); C14's own check missed it; VIEW obligations (typestate of the operation's Sequence wrapper) were added to C05-C08, C14, C15, C18",
  "C15-a": "missed by the first versions of C15 and C07 (the keep/skip decisions are unchanged); the nesting-count rule (every note-on is counted, every note-off of an open note uncounted) was added to STACK and C15 now includes the STACK rules",
